@@ -32,6 +32,8 @@ Round 6: (a0) the builder keeps class-body order; a run-wide all-ones mask kept 
 Int is understood by the bit provenance; membership / init rules three-valued.
 Round 7: bits chosen by the truth of the value instead of the value modulo 2^width; (a0') an
 override of _describe_yourself never takes entries of the base description away.
+Round 8: a class-level container filled by the methods of Bits; the extracted slice plus another
+quantity (sign extension); includes clause V of the cache protocol.
 """
 import ast
 import copy
